@@ -54,6 +54,13 @@ CLAIMED = {
         "mpmath at 40 digits is exact for this purpose; relative tolerance 2e-9 at interior points, 5e-2 at |x|>0.95 where r-rmin / 1-exp(-t) cancel in floating point; image-argument methods are referred to the exact pre-image of the float64 argument.",
         "DESIGN.md 3/C03",
     ),
+    "C04": (
+        "exploration",
+        "complete product (24 one-dimensional rules x 5 sizes) x transform class x parameter alphabet (incl. Inverse wrappers and inferred b), each transformed grid compared node by node with a multiprecision change-of-variables oracle; exact rational reference for the transported Gauss-Legendre exactness",
+        "Every (rule, n, transform, parameters) combination of the alphabets is enumerated (thorough: 3.0e4 grids / 2.5e5 node and domain comparisons; quick: reduced parameter alphabet), so sign, Jacobian order, domain ordering, trimming and rejection of mismatching domains are decided for every class and both monotonicities.",
+        "mpmath maps re-typed from docstrings; nodes where the map is singular only carry the +-inf/1e16 convention; Hyperbolic grids beyond the pole 1/b and zero-slope nodes of Inverse wrappers (clean ZeroDivisionError) are inadmissible, counted separately.",
+        "DESIGN.md 3/C04",
+    ),
 }
 
 NOT_YET = "check not built yet in this session (work in progress; see DESIGN.md section 8 for the order of work)"
